@@ -1,6 +1,7 @@
 package c14
 
 import (
+	"bufio"
 	"fmt"
 	"strings"
 
@@ -86,6 +87,84 @@ func corrPos(cx *lib.Ctx) {
 		cx.Res.CorrChecked++
 		if impl := strings.Join(want, " "); model != impl {
 			cx.Res.Fail(lib.Failure{Kind: "corr", Key: "POS", Desc: "token positions differ from the model of emitToken", Input: fmt.Sprintf("mode=%d start=%v src=%q", mode, start, src), Model: lib.Trunc(model, 400), Impl: lib.Trunc(impl, 400)})
+		}
+	}
+}
+
+// corrRangeScan ties the Lean model of hcl.RangeScanner.Scan (HclModel/Lex/RangeScan: the running position, the
+// "end" marker that stops at the token's last cluster, the restart of cluster counting at every window) to the
+// real scanner.  The windows are obtained by calling the split function exactly as the scanner does, the
+// clusters of every window from textseg (a cluster is a line break when its first byte is \r or \n, the
+// scanner's own test); the model must reproduce every Range().  Five split functions: lines, words, bytes,
+// runes, lines kept with their terminator.
+func corrRangeScan(cx *lib.Ctx) {
+	if !cx.HasModel() {
+		return
+	}
+	frags := []string{"a", "b1", " ", "  ", "\t", "\n", "\r\n", "\n\n", "=", "é", "é", "日本", "🇩🇪", "👩‍👩‍👧", "#c\n", "\xff", "\xe0\x80", "\r", ".", "x-y", "word", " \n"}
+	splits := []struct {
+		name string
+		f    bufio.SplitFunc
+	}{{"lines", bufio.ScanLines}, {"words", bufio.ScanWords}, {"bytes", bufio.ScanBytes}, {"runes", bufio.ScanRunes}, {"lines-keep", scanLinesKeep}}
+	n := cx.Scale(1200, 40000)
+	for i := 0; i < n; i++ {
+		r := cx.R.Fork()
+		var sb strings.Builder
+		for k := 1 + r.Intn(16); k > 0; k-- {
+			sb.WriteString(frags[r.Intn(len(frags))])
+		}
+		src := []byte(sb.String())
+		start := hcl.Pos{Byte: 0, Line: 1 + r.Intn(9), Column: 1 + r.Intn(30)}
+		sp := splits[r.Intn(len(splits))]
+		var got []string
+		ok := cx.Guard("rangescan:"+sp.name, string(src), func() {
+			sc := hcl.NewRangeScannerFragment(src, "f", start, sp.f)
+			for sc.Scan() {
+				g := sc.Range()
+				got = append(got, fmt.Sprintf("%d.%d.%d-%d.%d.%d", g.Start.Byte, g.Start.Line, g.Start.Column, g.End.Byte, g.End.Line, g.End.Column))
+				if len(got) > len(src)+2 {
+					panic("RangeScanner does not terminate")
+				}
+			}
+		})
+		if !ok {
+			continue
+		}
+		var wins []string
+		for pos := 0; pos < len(src); {
+			adv, tok, err := sp.f(src[pos:], true)
+			if err != nil || (adv == 0 && tok == nil) || adv < 0 || pos+adv > len(src) {
+				break
+			}
+			var cls []string
+			b := src[pos : pos+adv]
+			for len(b) > 0 {
+				a, seq, _ := textseg.ScanGraphemeClusters(b, true)
+				if a <= 0 {
+					break
+				}
+				nl := 0
+				if len(seq) > 0 && (seq[0] == '\r' || seq[0] == '\n') {
+					nl = 1
+				}
+				cls = append(cls, fmt.Sprintf("%d.%d", a, nl))
+				b = b[a:]
+			}
+			wins = append(wins, fmt.Sprintf("w%d:%s", len(tok), strings.Join(cls, ",")))
+			if adv == 0 {
+				break // (a split function that returns a token without advancing: the scanner would loop; not produced by these five)
+			}
+			pos += adv
+		}
+		model := cx.Ask(fmt.Sprintf("RSCAN %d %d %d %s", start.Byte, start.Line, start.Column, strings.Join(wins, " ")))
+		cx.Res.CorrChecked++
+		cx.Res.Count("corr-rscan:" + sp.name)
+		impl := strings.Join(got, " ")
+		if impl == "" {
+			impl = "-"
+		}
+		if model != impl {
+			cx.Res.Fail(lib.Failure{Kind: "corr", Key: "RSCAN", Desc: "RangeScanner ranges differ from the model of Scan (" + sp.name + ")", Input: fmt.Sprintf("split=%s start=%v src=%q", sp.name, start, src), Model: lib.Trunc(model, 400), Impl: lib.Trunc(impl, 400)})
 		}
 	}
 }
